@@ -48,10 +48,14 @@ def build(src, workdir):
         b = b[:m.start()] + b[bc + 1:]
         u.rewrites['R23'] = u.rewrites.get('R23', 0) + 1
         # ---- R12v: vec![] ; R21: Vec::iter -> the verified slice-iterator model
-        if b.count('::alloc::vec::Vec::new()') != 1 or b.count('q.coeffs.iter()') != 1:
-            raise AnchorLost('miller_loop: `vec![]` / `q.coeffs.iter()` not found')
-        b = b.replace('::alloc::vec::Vec::new()', 'Vec::new()').replace('q.coeffs.iter()', 'vec_iter(&q.coeffs)')
-        u.rewrites['R12v'] = u.rewrites.get('R12v', 0) + 1
+        m = FILT_RE.search(b)
+        if not m:
+            raise AnchorLost('miller_loop: the filtering loop `for &(p, q) in i` not found')
+        qn = m.group(2)
+        if b.count(f'{qn}.coeffs.iter()') != 1:
+            raise AnchorLost('miller_loop: `<q>.coeffs.iter()` not found')
+        u.rewrites['R12v'] = u.rewrites.get('R12v', 0) + b.count('::alloc::vec::Vec::new()')
+        b = b.replace('::alloc::vec::Vec::new()', 'Vec::new()').replace(f'{qn}.coeffs.iter()', f'vec_iter(&{qn}.coeffs)')
         u.rewrites['R21'] = u.rewrites.get('R21', 0) + 1
         # ---- R22: `for &(p, q) in i { B }` over the slice -> index loop
         m = FILT_RE.search(b)
@@ -120,10 +124,10 @@ def build(src, workdir):
             STUBS.append('#[verifier::external_body]\npub ' + b[m.start():m.end() - 1].strip() + ' { unimplemented!() }')
             b = b[:m.start()] + b[bc + 1:]
             u.rewrites['R23'] = u.rewrites.get('R23', 0) + 1
-        if b.count('::alloc::vec::Vec::new()') != 2 or b.count('BitIterator::new([BLS_X >> 1])') != 1:
-            raise AnchorLost('from_affine: vec![] / BitIterator::new([BLS_X >> 1])')
+        if b.count('BitIterator::new([BLS_X >> 1])') != 1:
+            raise AnchorLost('from_affine: BitIterator::new([BLS_X >> 1])')
+        u.rewrites['R12v'] = u.rewrites.get('R12v', 0) + b.count('::alloc::vec::Vec::new()')
         b = b.replace('::alloc::vec::Vec::new()', 'Vec::new()')
-        u.rewrites['R12v'] = u.rewrites.get('R12v', 0) + 2
         b = weave.rewrite_for_iter(b, u.rewrites, [dict(invariant=FA_INV, ghost_before=BITS_BEFORE + " proof { lemma_kidx_x(); }", ghost_after=BITS_AFTER)])
         b = re.sub(r'Some\(i\) => \{', 'Some(i) => { ' + FA_HEAD, b, count=1)
         return b
